@@ -23,6 +23,20 @@ def same_spec(ctx, tag, got, want):
         ctx.fail(f'{tag}/counts', f'{got} vs {want}')
     if got.none_is_leaf != want.none_is_leaf:
         ctx.fail(f'{tag}/none_is_leaf', '')
+    # == does not look at the recorded dict insertion order: both must also rebuild the same tree (key order included)
+    toks = [U.Leaf(1001 + 2 * i) for i in range(want.num_leaves)]
+    outs = []
+    for sp in (got, want):
+        try:
+            outs.append(('ok', sp.unflatten(toks)))
+        except Exception as e:  # noqa: BLE001  (e.g. a partial, which destructures its children)
+            outs.append(('raises', type(e).__name__))
+    if outs[0][0] != outs[1][0]:
+        ctx.fail(f'{tag}/unflatten', f'{outs[0]!r} vs {outs[1]!r}')
+    elif outs[0][0] == 'ok':
+        d = model.same_tree(outs[1][1], outs[0][1])
+        if d:
+            ctx.fail(f'{tag}/unflatten', d)
     return True
 
 
@@ -282,6 +296,8 @@ class C08(runner.Prop):
                 continue
             if same_spec(ctx, f'rebuild/{name}', got, s) and repr(got).split(', namespace=')[0].rstrip(')') != repr(s).split(', namespace=')[0].rstrip(')'):
                 ctx.fail(f'rebuild/{name}/repr', f'{got!r} vs {s!r}')
+            if kind == 'custom' and got.namespace != ns:
+                ctx.fail(f'rebuild/{name}/custom_namespace', f'{got.namespace!r} expected {ns!r}: {got!r}')
         ctx.label('rebuild_checked')
 
 
